@@ -113,6 +113,28 @@ theorem C10_told_success (P : Params) (x : CSt) (hc : x.client ≠ none) (v : Uu
       · exact ⟨true, rfl⟩
       · exact ⟨false, rfl⟩
 
+/-- **whatever the window is** (as long as it is not empty): a snapshot at the client's latest version, while another
+    version (or none) holds the snapshot, is accepted. This is the one case of acceptance the oracle of C11 decides
+    without asking the implementation (`tools/oracles.py`, `o_c11`). -/
+theorem C10_latest_accepted_any_window (P : Params) (hP : 1 ≤ P.searchLen) (x : CSt) (hx : CInv x) (hc : x.client ≠ none)
+    (v : Uuid) (data : Bytes) (now : Int) (hlatest : (anc x)[0]? = some v) (hnil : v ≠ Uuid.nil) (hcur : some v ≠ curSnap x) :
+    (cAddSnapshot P x v data now).1 = .asDone true := by
+  rw [C10_accept_iff P x hx hc v data now]
+  exact ⟨hnil, hcur, 0, by omega, hlatest, fun j hj => absurd hj (by omega)⟩
+
+/-- **whatever the window is**: a snapshot at an id that is neither one of the client's own versions nor the parent its
+    chain started from is declined. This is the one case of a decline the oracle of C18 decides without asking the
+    implementation (`o_c18`: a version that another client was given). -/
+theorem C10_off_chain_declined_any_window (P : Params) (x : CSt) (hx : CInv x) (hc : x.client ≠ none)
+    (v : Uuid) (data : Bytes) (now : Int) (hoff : v ∉ baseOf x.versions :: vids x.versions) :
+    (cAddSnapshot P x v data now).1 = .asDone false := by
+  obtain ⟨b, hb⟩ := C10_told_success P x hc v data now
+  cases b with
+  | false => exact hb
+  | true =>
+    obtain ⟨_, _, i, _, hget, _⟩ := (C10_accept_iff P x hx hc v data now).1 hb
+    exact absurd ((mem_anc x v).1 (List.mem_of_getElem? hget)) hoff
+
 /-- effect: replaced ⇒ record becomes (v, now, 0) with the uploaded bytes, versions and latest untouched;
     declined ⇒ nothing changes -/
 theorem C10_effect (P : Params) (x : CSt) (v : Uuid) (data : Bytes) (now : Int) :
